@@ -72,7 +72,7 @@ def plan(tier):
     src = [KERNEL_HEAD]
     jobs = []
     kname = 'C03'
-    ops = list(CMP) if thorough else ['equal', 'less_than', 'greater_than_or_equal']
+    ops = list(CMP)      # all six operators in both tiers (the quick tier used to sample three)
     sc_inst = [('i32', -8, 'i32', -8, 2), ('i32', -8, 'i16', -4, 2), ('i16', -4, 'i32', -8, 2), ('u8', 0, 'i32', -20, 2),
                ('i32', -4, 'u32', 0, 2), ('u16', 3, 'i16', 10, 2), ('i64', -30, 'i32', -8, 2), ('i32', -2, 'i32', 0, 10),
                ('i64', 0, 'i8', -4, 2), ('u32', 0, 'i32', -4, 2)]      # larger exponent on the left with the wider / differently signed rep on the left (seed C03_2)
